@@ -17,6 +17,7 @@ from hplmc.universe import NAME_SORT, slots, valuations
 
 ID = 'C09'
 NSHARD = 32
+WRAP_NODES = 5  # terms up to this size are also wrapped in chains of negations
 
 
 def bounds(tier):
@@ -261,10 +262,19 @@ def run(unit):
             continue
         r.count('evaluations')
         r.count('states')
-        probs = check_term(t, r)
+        probs = [(t, pk, d) for pk, d in check_term(t, r)]
         r.count('validated')
-        for pk, detail in probs:
-            r.violation(signature(t, pk), {'term': t, 'text': _txt(t)}, detail, size=absyn.size(t))
+        if n <= WRAP_NODES:
+            # shape family: chains of 2..4 negations directly above every small term
+            w = t
+            for depth in (1, 2, 3, 4):
+                w = ('un', 'not', w)
+                if depth >= 2:
+                    r.count('evaluations')
+                    r.count('states')
+                    probs += [(w, pk, d) for pk, d in check_term(w, r)]
+        for tt, pk, detail in probs:
+            r.violation(signature(tt, pk), {'term': tt, 'text': _txt(tt)}, detail, size=absyn.size(tt))
         if i % 4001 == 0:
             r.sample({'term': _txt(t), 'nodes': n})
     return r
@@ -279,7 +289,7 @@ def replay(w):
 def describe(tier):
     b = bounds(tier)
     return {
-        'rule': f"every boolean term over atoms p q r (x > 0) (y = 1) True False with not/and/or/implies/iff and forall/exists @i over xs, {{0, 1}}, [0 to 1] (bodies use (@i > 0), nested (@i < @j)) with <= {b['nodes_with_quantifiers']} nodes, and the quantifier-free part up to {b['nodes_propositional']} nodes; x every valuation (complete truth tables; numbers -1 0 1; arrays [] [0] [0,1]). Each term is split both as an expression and as a predicate. A state = one term; a transition = one real split_and call.",
+        'rule': f"every boolean term over atoms p q r (x > 0) (y = 1) True False with not/and/or/implies/iff and forall/exists @i over xs, {{0, 1}}, [0 to 1] (bodies use (@i > 0), nested (@i < @j)) with <= {b['nodes_with_quantifiers']} nodes, and the quantifier-free part up to {b['nodes_propositional']} nodes; x every valuation (complete truth tables; numbers -1 0 1; arrays [] [0] [0,1]). Every term with <= 5 nodes is also checked under chains of 2, 3 and 4 negations. Each term is split both as an expression and as a predicate. A state = one term; a transition = one real split_and call.",
         'bounds': b,
         'exhaustive': True,
         'assumptions': ['reference evaluator; strict connectives; ValueError accepted only if the input is false on the whole grid and contains a literal False'],
